@@ -77,6 +77,8 @@ _NODES = [
     ("k3", "int", 250, "cm", "k3 int = 250 cm"),
     ("k4", "int", 3, "m", "k4 int = 3 m"),
     ("ms", "int", 1500, "mm", "ms int = 1500 mm"),
+    ("pixels", "int", 4000000, None, "pixels int = 4000000"),
+    ("track", "int", 1000000, "mm", "track int = 1000000 mm"),
     ("tiny", "float", 0.001, "m", "tiny float = 0.001 m"),
     ("big", "float", 5000000.0, "m", "big float = 5000000 m"),
     ("ang", "float", 30.0, "deg", "ang float = 30 deg"),
@@ -513,9 +515,15 @@ def _cmp_pairs(custom):
     big_lits = [num("5000000", "m"), num("5000000.1", "m"), num("4999999.9", "m"), num("5000100", "m"),
                 num("4999900", "m"), num("5000001", "m"), num("5005000", "m"), num("500000000", "cm")]
     k3_lits = [num("2.5", "m"), num("250", "cm"), num("2", "m"), num("3", "m")]
+    # integer nodes of large magnitude vs literals that are not whole but within 1e-6 relative (strict operators are
+    # exact), directly and through a unit conversion
+    px_lits = [num("4000000"), num("4000000.5"), num("3999999.5"), num("4000000.25"), num("4000001"), num("3999999"),
+               num("4000100"), num("4000000.0")]
+    tr_lits = [num("1000000", "mm"), num("1000000.4", "mm"), num("999999.6", "mm"), num("1.0000002", "km"),
+               num("0.9999998", "km"), num("1000.0003", "m"), num("1", "km"), num("1.01", "km")]
     for n, lits in (("a", a_lits), ("c", c_lits), ("b", b_lits), ("k", k_lits), ("x", x_lits), ("wm", wm_lits),
                     ("wt", wt_lits), ("ws", ws_lits), ("cnt", cnt_lits), ("tiny", tiny_lits), ("big", big_lits),
-                    ("k3", k3_lits)):
+                    ("k3", k3_lits), ("pixels", px_lits), ("track", tr_lits)):
         for l in lits:
             P.append((node(n), l))
     if custom:
@@ -678,7 +686,7 @@ def tref(nodename, sl=None, fmt=None):
     return ["ref", nodename, sl, fmt]
 
 
-def _valid_refs(env):
+def _valid_refs(env, invalid=False):
     """every reference form Python can format (the others are 'not demanded')"""
     out = []
     for n in SCALARS:
@@ -691,20 +699,34 @@ def _valid_refs(env):
     for n, sl in ARR_ELEMS:
         for f in FMTS:
             out.append(tref(n, sl, f))
-    good = []
+    good, bad = [], []
     for r in out:
         try:
             R.tpl_eval([r], env)
             good.append(r)
         except RefSkip:
             pass
-    return good
+        except RefRaise:
+            bad.append(r)
+    return bad if invalid else good
 
 
 def _small_refs():
     return [tref("id", None, "05d"), tref("s"), tref("a", None, ".2f"), tref("name", [[5, None]]), tref("f"),
             tref("arr", [[1, 1], [2, 2]], ".3e"), tref("w"), tref("iarr", [[1, 1]]), tref("wm"),
             tref("sm", [[1, 3]]), tref("cnt", None, "05d")]
+
+
+def g_tpl_mismatch():
+    """every (scalar node type x presentation type) that Python's format() refuses: alone, next to text, next to a
+    valid reference"""
+    env = _REF.get("plain") or ref_env("plain")
+    for r in _valid_refs(env, invalid=True):
+        yield [r]
+        yield [["txt", "x = "], r]
+        yield [r, ["txt", " y"]]
+        yield [tref("s"), r]
+        yield [r, tref("id", None, "05d")]
 
 
 def _custom_refs():
@@ -1202,8 +1224,22 @@ def _tpl_tags(pieces, envname):
     return sorted(tags)
 
 
+def _tpl_expected(pieces, envname):
+    try:
+        return R.tpl_eval(pieces, _REF[envname])
+    except RefRaise as e:
+        return ["raise", str(e)]
+
+
 def _judge_tpl(sub, case, exp, o, sh):
     tags = _tpl_tags(case["ast"], case["env"])
+    if isinstance(exp, list) and exp and exp[0] == "raise":
+        if o[0] == "err":
+            sh.count(sub + ":refused-as-demanded")
+            return None
+        sh.count(sub + ":FAIL-accepted")
+        return failure(sub, case, "an error (%s)" % exp[1], _show(o[1]), tags=tags + ["format-refused-by-python"],
+                       behaviour="accepted-instead-of-raising")
     if o[0] == "err":
         sh.count(sub + ":FAIL-raised")
         return failure(sub, case, exp, list(o[1:]), tags=tags, behaviour=_beh(o))
@@ -1227,6 +1263,8 @@ def run_tpl(envname, pieces, sh, sub="template"):
     except RefSkip as e:
         sh.count("%s:not-demanded:%s" % (sub, e))
         return
+    except RefRaise as e:
+        exp = ["raise", str(e)]
     case = dict(kind="tpl", env=envname, ast=pieces, text=text)
     sh.evaluations += 1
     h = _hash("tpl", envname, text)
@@ -1460,6 +1498,7 @@ def _streams(tier, seed):
     for name, g in hist_streams(tier, seed):
         out[name] = ("hist", "custom", g, None)
     out["tpl/all"] = ("tpl", "plain", lambda: g_tpl(tier), None)
+    out["tpl/format-mismatch"] = ("tpl", "plain", lambda: g_tpl_mismatch(), None)
     out["tpl/custom-env"] = ("tpl", "custom", lambda: ([r] for r in _valid_refs(_REF["plain"]) + _custom_refs()), None)
     out["itpl/all"] = ("itpl", "plain", lambda: g_tpl_infile(tier), None)
     out["itpl/custom"] = ("itpl", "custom", lambda: ([r] for r in _small_refs() + _custom_refs()), None)
@@ -1563,7 +1602,7 @@ def replay(rec):
             o = ("ok", o[1][0]) if o[0] == "ok" else o
             return _judge_log(rec["sub"], c, R.log_eval(c["ast"], _REF[env]), o, sh)
         if kind == "tpl":
-            return (_judge_tpl(rec["sub"], c, R.tpl_eval(c["ast"], _REF[env]), outcome(_solve_tpl, env, c["text"]), sh)
+            return (_judge_tpl(rec["sub"], c, _tpl_expected(c["ast"], env), outcome(_solve_tpl, env, c["text"]), sh)
                     or _env_guard(env, rec["sub"], c, _tpl_tags(c["ast"], env), sh))
         if kind == "itpl":
             o = outcome(_parse_infile, env, "tpl", [(c["ast"], c["text"], None)])
